@@ -147,6 +147,8 @@ def prepare_unit(unit, scratch, mutate=None):
         with open(p) as f:
             return f.read()
 
+    # stubs that real headers reach through quoted sibling includes must sit in the shadow tree too
+    shutil.copytree(os.path.join(VERIF, 'stubs', 'veriblock'), os.path.join(sh, 'veriblock'), dirs_exist_ok=True)
     # generated typed consts.hpp
     if unit.get('gen_consts', True):
         t, names = gen_consts(src_text('include/veriblock/pop/consts.hpp'))
@@ -163,6 +165,12 @@ def prepare_unit(unit, scratch, mutate=None):
             raise Undecided(str(e))
         if mutate and mutate.get('file') == ent['src']:
             text = apply_mutation(text, mutate)
+        try:
+            for et in ent.get('expand_member_templates', []):
+                text = extract.expand_member_template(text, et['name'], et['types'], 'in ' + ent['src'])
+                fired.append({'rule': 'member template %s instantiated textually' % et['name'], 'replacement': ','.join(et['types']) or '(deleted)', 'fired': 1})
+        except extract.ExtractError as e:
+            raise Undecided(str(e))
         info['fired'] += [dict(f, where=ent['src']) for f in fired]
         dst = os.path.join(sh, ent['dst'])
         os.makedirs(os.path.dirname(dst), exist_ok=True)
@@ -240,7 +248,7 @@ def compile_unit(unit, scratch, defs):
             objs.append(o)
         for i, src in enumerate(unit.get('c', ['contracts.c'])):
             o = os.path.join(od, 'c%d.gb' % i)
-            rc, so, dt, to = run(['goto-cc'] + inc + dflags + ['-c', os.path.join(unit['dir'], src), '-o', o], ud, 300)
+            rc, so, dt, to = run(['goto-cc', '-I', unit['dir'], '-I', ud, '-I', os.path.join(VERIF, 'stubs', 'c')] + dflags + ['-c', os.path.join(unit['dir'], src), '-o', o], ud, 300)
             if rc != 0 or to:
                 raise Undecided('goto-cc (C) failed for %s [%s]:\n%s' % (unit['unit'], tag, so[-3000:]))
             objs.append(o)
@@ -647,9 +655,13 @@ def run_checks(units, sel_props, args, scratch, seed, t0):
         viol, kf, und = [], [], []
         for r in pres:
             if r['status'] == 'undecided':
+                key = r['reason'][:200]
+                if key not in [x['reason'][:200] for x in und]:
+                    print('UNDECIDED property=%s unit=%s harness=%s reason=%s' % (prop, r['unit'], r['harness'],
+                                                                             r['reason'].replace('\n', ' ')[:500]))
+                else:
+                    print('UNDECIDED property=%s unit=%s harness=%s reason=(same as above)' % (prop, r['unit'], r['harness']))
                 und.append(r)
-                print('UNDECIDED property=%s unit=%s harness=%s reason=%s' % (prop, r['unit'], r['harness'],
-                                                                         r['reason'].replace('\n', ' ')[:500]))
             elif r['status'] == 'violated':
                 k = known_match(known, prop, r)
                 path, doc = write_replay(prop, r, replays_dir)
